@@ -442,7 +442,10 @@ def dict_to_array(schema, inval):
         keys = sorted(list(inval.keys()))
         dims = {coord: sorted(list(schema.coords[coord].values))
                 for coord in schema.coords}
-        for name, coords in dims.items():
+        # (illumination first: integer channel labels such as 0, 1 can
+        # coincide with pixel coordinates of a small grid)
+        for name, coords in sorted(dims.items(),
+                                   key=lambda item: item[0] != illumination):
             if keys == coords:
                 if isinstance(list(inval.values())[0], xr.DataArray):
                     dim = xr.DataArray(list(inval.keys()), dims=name, name=name)
